@@ -462,7 +462,7 @@ func TestVerifEnumC11Client(t *testing.T) {
 	okBody := []byte("1.0\n{\"answer\":\"fake\"}")
 
 	// ---- 1. fronting, request shape (both rendezvous methods) ------------------------------------
-	r.Begin("fronting", fmt.Sprintf("%d broker URLs (http/https, no path, path prefix, default and other port, IDN A-label, IPv6 literal, no trailing slash, query) x front %q x {HTTP POST, AMP without cache, AMP through %d cache URLs (plain, path prefix, port, http without path)} x %d polls (real, empty, bytes mapping to '-' '_' '/', 3 KB); observed at the RoundTripper and on the wire of a net/http.Transport dialling an in-memory pipe: connection target = front, Host = broker (cache subdomain for AMP caches), broker named nowhere else, method, path, query and poll intact, equal to the unfronted request", len(brokers), c11Fronts, len(c11CacheCfgs)-1, len(polls)))
+	r.Begin("fronting", fmt.Sprintf("%d broker URLs (http/https, no path, path prefix, default and other port, IDN A-label, IPv6 literal, no trailing slash, query) x front %q x {HTTP POST, AMP without cache, AMP through %d cache URLs (plain, path prefix, port, http without path)} x %d polls (real, empty, bytes mapping to '-' '_' '/', 3 KB); observed at the RoundTripper and on the wire of a net/http.Transport dialling an in-memory pipe: connection target = front, Host = broker (cache subdomain for AMP caches), broker named nowhere else, method, path, query and poll intact, equal to the unfronted request; two further exchanges on the same rendezvous object are addressed exactly like the first", len(brokers), c11Fronts, len(c11CacheCfgs)-1, len(polls)))
 	type unfronted struct {
 		path, query string
 		ok          bool
@@ -498,9 +498,9 @@ func TestVerifEnumC11Client(t *testing.T) {
 						}}
 						var data []byte
 						var err error
+						var x c11Exchanger
 						rand.Reader = &c11Counter{}
 						p, val, stack := en.Try(func() {
-							var x c11Exchanger
 							x, err = c11New(ampMode, b.url, c.url, front, rt)
 							if err == nil {
 								data, err = x.Exchange(poll)
@@ -533,6 +533,36 @@ func TestVerifEnumC11Client(t *testing.T) {
 							base = unfronted{q.EscPath, q.RawQuery, true}
 						} else if base.ok && (q.EscPath != base.path || q.RawQuery != base.query) {
 							r.Fail("fronting:front-changes-target", fmt.Sprintf("with the front the request target is %q?%q, without it %q?%q", q.EscPath, q.RawQuery, base.path, base.query), input)
+						}
+
+						// the same rendezvous object serves every later poll of the client: two more exchanges
+						// (another poll, then the first again) must be addressed exactly like a first one
+						for rep := 2; rep <= 3 && x != nil; rep++ {
+							poll2 := polls[(pi+rep-1)%len(polls)]
+							if rep == 3 {
+								poll2 = poll
+							}
+							want2 := c11WantFor(b, c, ampMode, poll2)
+							rt.reqs = nil
+							rand.Reader = &c11Counter{}
+							var d2 []byte
+							var e2 error
+							p2, v2, st2 := en.Try(func() { d2, e2 = x.Exchange(poll2) })
+							in2 := map[string]interface{}{"broker": b.url, "cache": c.url, "front": front, "amp": ampMode, "exchange_number_on_the_same_object": rep, "poll_len": len(poll2)}
+							if p2 {
+								r.Fail("fronting:panic@"+en.PanicSite(st2), "repeated Exchange panicked: "+v2+" "+st2, in2)
+								break
+							}
+							if len(rt.reqs) != 1 {
+								r.Fail("fronting:request-count", fmt.Sprintf("exchange %d on the same object: %d requests (err=%v)", rep, len(rt.reqs), e2), in2)
+								break
+							}
+							q2 := rt.reqs[0]
+							in2["request"] = q2.describe()
+							c11JudgeRequest(r, "fronting-repeated", want2, front, q2.Method, q2.Scheme, q2.URLHost, q2.HostHeader, q2.EscPath, q2.RawQuery, q2.Body, c11OtherHeaders(q2.Header), in2)
+							if e2 != nil || !bytes.Equal(d2, okBody) {
+								r.Fail("fronting:exchange-failed", fmt.Sprintf("exchange %d on the same object: 200 with a small valid body gave %q, %v", rep, d2, e2), in2)
+							}
 						}
 
 						// (ii) on the wire
